@@ -293,7 +293,8 @@ static pid_t process_fork(const int *except, size_t num_except)
 
 finish:
   if (r < 0) {
-    (void) !write(pipe.write, &errno, sizeof(errno));
+    int error = -r;
+    (void) !write(pipe.write, &error, sizeof(error));
     _exit(EXIT_FAILURE);
   }
 
@@ -416,7 +417,8 @@ int process_start(pid_t *process,
 
   child:
     if (r < 0) {
-      (void) !write(pipe.write, &errno, sizeof(errno));
+      int error = -r;
+      (void) !write(pipe.write, &error, sizeof(error));
       _exit(EXIT_FAILURE);
     }
 
